@@ -493,6 +493,18 @@ def run(rd, emit, log, enum_values, ti_default):
             a = ti_parent.get(a)
     body += '(* non-abstract types whose construction + destruction inside a sandboxed evaluation therefore touches process-global state *)\n'
     body += 'Definition f_sb_ctor_global : list string := [%s].\n' % '; '.join(coqs(x) for x in ctor_global)
+    va = []
+    for f in sorted(glob.glob(os.path.join(REPO, 'lib', '**', '*.ti'), recursive=True)):
+        t = strip_comments(open(f, encoding='utf-8', errors='replace').read())
+        va += re.findall(r'\bvararg_constructor\s+(?:abstract\s+)?class\s+(\w+)', t)
+    objcpp = strip_comments(rd('lib/base/object.cpp'))
+    chk = fn_body(objcpp, r'void\s+icinga::DefaultObjectFactoryCheckArgs\s*\(') or ''
+    objhpp = strip_comments(rd('lib/base/object.hpp'))
+    fac = re.search(r'DefaultObjectFactory\s*\(const std::vector<Value>&\s*args\)\s*\{\s*DefaultObjectFactoryCheckArgs\s*\(\s*args\s*\)\s*;\s*return\s+new\s+T\s*\(\s*\)\s*;', objhpp)
+    body += '(* types declared vararg_constructor in the .ti files: the only ones whose constructor receives the script arguments *)\n'
+    body += 'Definition f_sb_vararg_types : list string := [%s].\n' % '; '.join(coqs(x) for x in sorted(set(va)))
+    body += '(* DefaultObjectFactory<T> = DefaultObjectFactoryCheckArgs(args); return new T();  and the check throws on a non-empty list *)\n'
+    body += 'Definition f_sb_default_factory_checks_args : bool := %s.\n' % ('true' if (fac and re.search(r'if\s*\(\s*!\s*args\s*\.\s*empty\s*\(\s*\)\s*\)\s*\{?\s*BOOST_THROW_EXCEPTION', chk)) else 'false')
     ccb = fn_body(vmops, r'static\s+inline\s+Value\s+ConstructorCall\s*\(') or ''
     body += '(* VMOps::ConstructorCall tests the sandbox flag (it has no frame parameter today) *)\n'
     body += 'Definition f_sb_ctor_call_guarded : bool := %s.\n\n' % ('true' if re.search(r'Sandboxed', ccb) else 'false')
